@@ -10,7 +10,7 @@ PURE = [
     "Deref::deref", "DerefMut::deref_mut", "Number::from_i64", "Number::into_f64", "PartialOrd::ge", "PartialOrd::le",
     "PartialOrd::lt", "PartialOrd::gt", "PartialEq::eq", "PartialEq::ne", "Neg::neg", "AsRef::as_ref",
     re.compile(r"^core::panicking::"), re.compile(r"^std::rt::"), re.compile(r"^core::fmt::"), re.compile(r"^std::fmt::"),
-    "Clone::clone", "Default::default", "Into::into", "From::from", "hint::must_use",
+    "Clone::clone", "Default::default", "Into::into", "From::from", "hint::must_use", "Try::branch", "FromResidual::from_residual",
     re.compile(r"^core::ub_checks"), re.compile(r"^std::intrinsics::"), re.compile(r"^core::intrinsics::"),
 ]
 
@@ -112,6 +112,60 @@ def count_range(body, blocks, start=0):
         memo[b] = (mn + w, mx + w)
         return memo[b]
 
+    r = go(start)
+    if r is None:
+        return (0, 0)
+    return (r[0], math.inf if inf else r[1])
+
+
+def count_range_region(body, blocks, start, stop, returns_count=False):
+    """(min, max) visits of `blocks` over all paths from start to a block in `stop` (or a return), never passing through a stop block.
+    Used for "once per loop iteration": stop = the loop header."""
+    blocks = set(blocks)
+    stop = set(stop)
+    region = body.reach(start, avoid_blocks=stop)
+    exits = set(body.exits())
+    # back edges inside the region
+    back = {(a, b) for (a, b) in body.back_edges() if a in region and b in region}
+    inf = False
+    for (a, h) in back:
+        loop = {h}
+        st = [a]
+        while st:
+            x = st.pop()
+            if x in loop or x not in region:
+                continue
+            loop.add(x)
+            st.extend(body.preds(x))
+        if loop & blocks:
+            inf = True
+    memo = {}
+
+    def go(b):
+        if b in memo:
+            return memo[b]
+        memo[b] = None
+        w = 1 if b in blocks else 0
+        best = None
+        if b in exits and returns_count:
+            best = (0, 0)
+        for s_ in body.succs(b):
+            if (b, s_) in back:
+                continue
+            if s_ in stop:
+                r = (0, 0)
+            elif s_ in region:
+                r = go(s_)
+            else:
+                r = None
+            if r is None:
+                continue
+            best = r if best is None else (min(best[0], r[0]), max(best[1], r[1]))
+        if best is None:
+            memo[b] = None
+            return None
+        memo[b] = (best[0] + w, best[1] + w)
+        return memo[b]
     r = go(start)
     if r is None:
         return (0, 0)
